@@ -53,6 +53,14 @@ def run(ctx):
         m = importlib.util.module_from_spec(sp)
         sp.loader.exec_module(m)
         m.run_ext(ctx)
+    # extension: state root validation above the local roots (spec/statesvc, harness/c03statesvc)
+    ep = os.path.join(os.path.dirname(os.path.abspath(__file__)), "c03_stateservice.py")
+    if os.path.exists(ep):
+        import importlib.util
+        sp = importlib.util.spec_from_file_location("check_c03_stateservice", ep)
+        m = importlib.util.module_from_spec(sp)
+        sp.loader.exec_module(m)
+        m.run_ext(ctx)
     if not fails:
         selftest(ctx, events)
     ctx.assumptions.append("retention per configuration: default keeps every height, RemoveUntraceableBlocks keeps heights within MaxTraceableBlocks of the tip, KeepOnlyLatestState only the current one; only retained heights are judged")
